@@ -6,6 +6,9 @@ use crate::Ctx;
 use serde_json::Value;
 
 pub mod c01;
+pub mod c04;
+pub mod c05;
+pub mod c13;
 
 pub struct Prop {
     pub id: &'static str,
@@ -25,6 +28,9 @@ fn no_assumptions() -> Vec<String> {
 pub fn lookup(id: &str) -> Option<Prop> {
     Some(match id {
         "C01" => Prop { id: "C01", run: c01::run, rule: c01::rule, exhaustive: |c| Some(c.thorough), assumptions: no_assumptions },
+        "C04" => Prop { id: "C04", run: c04::run, rule: c04::rule, exhaustive: |_| Some(true), assumptions: no_assumptions },
+        "C05" => Prop { id: "C05", run: c05::run, rule: c05::rule, exhaustive: none, assumptions: no_assumptions },
+        "C13" => Prop { id: "C13", run: c13::run, rule: c13::rule, exhaustive: |_| Some(true), assumptions: no_assumptions },
         _ => return None,
     })
 }
